@@ -232,6 +232,8 @@ pub enum SAct {
     EncDec(u8, bool),
     SerDe(u8, bool),
     Msm(u8, u8),
+    Precomp3Mul(u8, u8),
+    Precomp256Mul(u8, u8),
 }
 pub trait SafeOps: RealCurve {
     fn enc_dec(p: &Self::Proj, compressed: bool) -> Result<Self::Proj, String>;
@@ -340,6 +342,10 @@ where
                 if self.scalars[k as usize].bits() <= 255 {
                     out.push(SAct::WnafMul(i, k));
                 }
+                out.push(SAct::Precomp3Mul(i, k));
+                if k < 2 {
+                    out.push(SAct::Precomp256Mul(i, k));
+                }
             }
         }
     }
@@ -378,6 +384,41 @@ where
             }
             SAct::WnafMul(i, k) => {
                 let p: C::Proj = Wnaf::new().scalar(frrepr(&self.scalars[k as usize])).base(regs[i as usize].p);
+                (i as usize, p, (&regs[i as usize].exp * &self.scalars[k as usize]) % rr)
+            }
+            SAct::Precomp3Mul(i, k) | SAct::Precomp256Mul(i, k) => {
+                // tables built by the library's own precomputation; every table entry is handed out too
+                let aff = regs[i as usize].p.into_affine();
+                let n = if matches!(a, SAct::Precomp3Mul(..)) { 3 } else { 256 };
+                let mut pre = vec![C::Aff::zero(); n];
+                if n == 3 {
+                    aff.precomp_3(&mut pre);
+                } else {
+                    aff.precomp_256(&mut pre);
+                }
+                for (j, e) in pre.iter().enumerate() {
+                    // the 256-entry table is compared on a spread of entries here (C02 checks every entry)
+                    if n == 256 && ![0usize, 1, 2, 3, 5, 8, 16, 32, 64, 128, 129, 255].contains(&j) {
+                        continue;
+                    }
+                    // [m_j] of the register: m_j = 2^(64(j+1)) resp. sum of 2^(32 b) over the bits b of j
+                    let mut m = BigUint::zero();
+                    if n == 3 {
+                        m = alpha::pow2(64 * (j + 1));
+                    } else {
+                        for b in 0..8 {
+                            if (j >> b) & 1 == 1 {
+                                m += alpha::pow2(32 * b);
+                            }
+                        }
+                    }
+                    let want = self.expected(&((&regs[i as usize].exp * m) % rr));
+                    if C::pt_of_aff(e) != want {
+                        return Err(format!("{}: precomputation table entry {} ({:?}) is not the predicted multiple of the generator (off the curve or outside the subgroup)", C::NAME, j, a));
+                    }
+                }
+                let kk = frrepr(&self.scalars[k as usize]);
+                let p = if n == 3 { aff.mul_precomp_3(kk, &pre) } else { aff.mul_precomp_256(kk, &pre) };
                 (i as usize, p, (&regs[i as usize].exp * &self.scalars[k as usize]) % rr)
             }
             SAct::AffineRoundTrip(i) => (i as usize, regs[i as usize].p.into_affine().into_projective(), regs[i as usize].exp.clone()),
